@@ -487,7 +487,11 @@ func (o *ONS) gammaTrack(c *Ctx) []hist.TxSpec {
 	switch {
 	case o.g == 0 && o.n >= 3:
 		o.g = 1
-		return []hist.TxSpec{onsCreate(c, seller, nil, gamma, priceFor(c, 5000), "", "create a name that will be sold together with a brand-new sub-domain")}
+		return []hist.TxSpec{
+			onsCreate(c, seller, nil, gamma, priceFor(c, 5000), "", "create a name that will be sold together with a brand-new sub-domain"),
+			// somebody else's name of which the traded name is a textual suffix, with a sub-domain of its own
+			onsCreate(c, us[0], nil, "q"+o.beta(), priceFor(c, 7000), "", "create a name that merely ends in another owner's name"),
+		}
 	case o.g == 1 && changeable(c, g):
 		o.g = 2
 		return []hist.TxSpec{onsSell(c, seller, gamma, OLT(321), false, "owner lists the name")}
@@ -502,7 +506,19 @@ func (o *ONS) gammaTrack(c *Ctx) []hist.TxSpec {
 		return []hist.TxSpec{onsUpdate(c, buyer, nil, gamma, false, "", "new owner deactivates the purchased name")}
 	case o.g == 4 && changeable(c, g):
 		o.g = 5
-		return []hist.TxSpec{onsUpdate(c, buyer, nil, gamma, true, "", "new owner re-activates the purchased name")}
+		return []hist.TxSpec{
+			onsUpdate(c, buyer, nil, gamma, true, "", "new owner re-activates the purchased name"),
+			onsCreate(c, us[0], nil, "w.q"+o.beta(), priceFor(c, 1), "", "sub-domain of the look-alike name"),
+		}
+	case o.g == 5 && changeable(c, g) && g.Active:
+		o.g = 6
+		return []hist.TxSpec{
+			onsCreate(c, buyer, nil, "a."+gamma, priceFor(c, 1), "", "first of two sub-domains"),
+			onsCreate(c, buyer, nil, "b."+gamma, priceFor(c, 1), "", "second of two sub-domains"),
+		}
+	case o.g == 6 && changeable(c, g) && FindDomain(c.S, "b."+gamma) != nil:
+		o.g = 7
+		return []hist.TxSpec{onsRenew(c, buyer, gamma, blocksFee(c, 40), "renew a name that has two sub-domains")}
 	}
 	return nil
 }
